@@ -9,7 +9,7 @@ import TmVerif.Codec.UniqueName
 import TmVerif.Codec.Rule
 import TmVerif.Codec.Event
 import TmVerif.Codec.Payload
-import TmVerif.Codec.LdapObjects
+import TmVerif.Codec.LdapApp
 
 namespace TmVerif.Codec
 open TmVerif
@@ -469,17 +469,105 @@ example : showObj ((partitionToEntry demoPartition).bind (fun e => partitionFrom
     some "{\"_id\": \"p1\", \"cpu\": \"0%\", \"disk\": \"0G\", \"down-threshold\": 5, \"limits\": [{\"cpu\": \"10%\", \"trait\": \"b\"}, {\"trait\": \"a\"}], \"memory\": \"0G\", \"systems\": [3032, 7]}".toList := by
   decide +kernel
 
+
+/-- **C15 (Application round trip) — PARTIAL.** For every application object satisfying `AppOK`
+    (flat fields well-typed, `ephemeral_ports` a dict of ints; services / endpoints / environ /
+    affinity limits / vring rules keyed lists of any length whose rows carry their string key and
+    are well-typed; effective restart settings well-typed; vring cells well-typed):
+    `from_entry(_remove_empty(to_entry(obj)))` never raises on the codec side and equals
+    `normaliseApp`: the decoder's post-processing `appFinish` applied to the NORMAL FORMS of the
+    eight parts (flat schema, services, restart rows, endpoints, environ, affinity rows, vring rules,
+    vring cells) — every part of the entry is recovered exactly, across five interleaved option
+    prefixes.
+    What is missing: (a) `appFinish` (merge of restart rows into services by name, affinity rows →
+    dict, `ephemeral_ports` regrouping, vring assembly) is the decoder's own code, taken as the
+    definition of the normal form rather than related to the written object; (b) the normal form is
+    not a fixed point: known finding C15-ldap-ephemeral-ports-empty, witness
+    `C15_ldap_app_ephemeral_ports_witness`. -/
+theorem C15_ldap_app_roundtrip_partial {obj obj1 : KVs} {svRows epRows enRows afRows : List KVs} {vr : KVs}
+    {vrRows : List KVs} (h : AppOK obj obj1 svRows epRows enRows afRows vr vrRows) :
+    ∃ E, appToEntry obj = some E ∧
+      appFromEntry (removeEmpty E) = normaliseApp obj1 svRows epRows enRows afRows vr vrRows :=
+  app_roundtrip h
+
+/-- **C15 (Application: injective on normal forms).** -/
+theorem C15_ldap_app_inj {o₁ p₁ : KVs} {sv₁ ep₁ en₁ af₁ : List KVs} {vr₁ : KVs} {vrr₁ : List KVs}
+    {o₂ p₂ : KVs} {sv₂ ep₂ en₂ af₂ : List KVs} {vr₂ : KVs} {vrr₂ : List KVs}
+    (h₁ : AppOK o₁ p₁ sv₁ ep₁ en₁ af₁ vr₁ vrr₁) (h₂ : AppOK o₂ p₂ sv₂ ep₂ en₂ af₂ vr₂ vrr₂)
+    (h : appToEntry o₁ = appToEntry o₂) :
+    normaliseApp p₁ sv₁ ep₁ en₁ af₁ vr₁ vrr₁ = normaliseApp p₂ sv₂ ep₂ en₂ af₂ vr₂ vrr₂ := by
+  obtain ⟨E₁, e₁, d₁⟩ := app_roundtrip h₁
+  obtain ⟨E₂, e₂, d₂⟩ := app_roundtrip h₂
+  rw [e₁, e₂] at h
+  cases h
+  rw [d₁] at d₂
+  exact d₂
+
+/-- an application with two services (one with explicit restart), endpoints in "wrong" order,
+    `None` fields, a `None` list element, affinity limits and a vring -/
+def demoApp2 : KVs :=
+  [(S "_id", .str (S "proid.app")), (S "cpu", .str (S "10%")), (S "memory", .null),
+   (S "tickets", .arr [.str (S "a"), .null, .str (S "b")]), (S "shared_ip", .bool true),
+   (S "ephemeral_ports", .obj [(S "tcp", .int 2)]),
+   (S "services", .arr [.obj [(S "name", .str (S "web")), (S "command", .str (S "/bin/web")),
+                              (S "restart", .obj [(S "limit", .int 3)])],
+                        .obj [(S "name", .str (S "a")), (S "root", .bool true)]]),
+   (S "endpoints", .arr [.obj [(S "name", .str (S "y")), (S "port", .int 2)],
+                         .obj [(S "name", .str (S "x")), (S "port", .int 1), (S "proto", .null)]]),
+   (S "affinity_limits", .obj [(S "server", .int 1), (S "rack", .int 2)]),
+   (S "vring", .obj [(S "cells", .arr [.str (S "c1")]),
+                     (S "rules", .arr [.obj [(S "pattern", .str (S "x.*")), (S "endpoints", .arr [.str (S "http")])]])])]
+
+/-- `AppOK` is satisfiable by a non-trivial object (all side conditions are decided). -/
+example : ∃ obj1 svRows epRows enRows afRows vr vrRows, AppOK demoApp2 obj1 svRows epRows enRows afRows vr vrRows := by
+  refine ⟨(appWithPorts demoApp2).getD [],
+    ((getList (S "services") demoApp2).bind (sortByKey (S "name"))).getD [],
+    ((getList (S "endpoints") demoApp2).bind (sortByKey (S "name"))).getD [],
+    ((getList (S "environ") demoApp2).bind (sortByKey (S "name"))).getD [],
+    ((appAffRows demoApp2).bind (sortByKey (S "level"))).getD [],
+    [(S "cells", .arr [.str (S "c1")]),
+     (S "rules", .arr [.obj [(S "pattern", .str (S "x.*")), (S "endpoints", .arr [.str (S "http")])]])],
+    [[(S "pattern", .str (S "x.*")), (S "endpoints", .arr [.str (S "http")])]], ?_⟩
+  exact {
+    ports := by rfl
+    main := objWFb_sound _ _ (by decide +kernel)
+    sv := by rfl
+    svok := fun s hs => svcOKb_sound s (by revert s; decide +kernel)
+    ep := by rfl
+    epok := fun r hr => rowOKb_sound _ _ r (by revert r; decide +kernel)
+    en := by rfl
+    enok := fun r hr => rowOKb_sound _ _ r (by revert r; decide +kernel)
+    af := by rfl
+    afok := fun r hr => rowOKb_sound _ _ r (by revert r; decide +kernel)
+    vring := .dict _ _ (by rfl)
+    vrok := objWFb_sound _ _ (by decide +kernel)
+    vrr := by rfl
+    vrrok := fun r hr => rowOKb_sound _ _ r (by revert r; decide +kernel) }
+
+/-- field by field: keyed lists come back sorted, defaults filled, `None`s dropped -/
+def roundApp (o : KVs) : Option KVs := (appToEntry o).bind (fun e => appFromEntry (removeEmpty e))
+def fieldText (o : Option KVs) (k : String) : Option Str := (o.bind (lookup (S k))).map dumpVal
+
+example : fieldText (roundApp demoApp2) "services" =
+    some "[{\"name\": \"web\", \"command\": \"/bin/web\", \"restart\": {\"limit\": 3, \"interval\": 60}}, {\"name\": \"a\", \"root\": true, \"restart\": {\"limit\": 5, \"interval\": 60}}]".toList ∧
+    fieldText (roundApp demoApp2) "endpoints" = some "[{\"name\": \"x\", \"port\": 1}, {\"name\": \"y\", \"port\": 2}]".toList ∧
+    fieldText (roundApp demoApp2) "ephemeral_ports" = some "{\"tcp\": 2, \"udp\": 0}".toList ∧
+    fieldText (roundApp demoApp2) "tickets" = some "[\"a\", \"b\"]".toList ∧
+    fieldText (roundApp demoApp2) "memory" = none := by
+  decide +kernel
+
 def demoApp : KVs := [(S "_id", .str (S "proid.app")), (S "cpu", .str (S "10%"))]
 
 /-- **Witness of the known finding** (ephemeral ports): an application without ephemeral ports reads
     back with `ephemeral_ports = {}`; writing THAT object and reading it again gives
     `{"tcp": 0, "udp": 0}` — `decode ∘ encode` is not the identity on the decoder's own output. -/
 theorem C15_ldap_app_ephemeral_ports_witness :
-    showObj ((appToEntry demoApp).bind (fun e => appFromEntry (removeEmpty e))) =
-      some "{\"_id\": \"proid.app\", \"affinity_limits\": {}, \"args\": [], \"cpu\": \"10%\", \"endpoints\": [], \"environ\": [], \"ephemeral_ports\": {}, \"features\": [], \"keytabs\": [], \"passthrough\": [], \"services\": [], \"tickets\": [], \"traits\": []}".toList ∧
-    showObj (((appToEntry demoApp).bind (fun e => appFromEntry (removeEmpty e))).bind
-        (fun o => (appToEntry o).bind (fun e => appFromEntry (removeEmpty e)))) =
-      some "{\"_id\": \"proid.app\", \"affinity_limits\": {}, \"args\": [], \"cpu\": \"10%\", \"endpoints\": [], \"environ\": [], \"ephemeral_ports\": {\"tcp\": 0, \"udp\": 0}, \"features\": [], \"keytabs\": [], \"passthrough\": [], \"services\": [], \"tickets\": [], \"traits\": []}".toList := by
+    (((appToEntry demoApp).bind (fun e => appFromEntry (removeEmpty e))).bind (lookup (S "ephemeral_ports"))).map dumpVal
+      = some "{}".toList ∧
+    ((((appToEntry demoApp).bind (fun e => appFromEntry (removeEmpty e))).bind
+        (fun o => (appToEntry o).bind (fun e => appFromEntry (removeEmpty e)))).bind
+          (lookup (S "ephemeral_ports"))).map dumpVal
+      = some "{\"tcp\": 0, \"udp\": 0}".toList := by
   decide +kernel
 
 end TmVerif.Codec
